@@ -11,29 +11,29 @@ mutual
 /-- **Round trip.**  For every well-formed expression `e`, every level `k` at which it may stand,
 every continuation `rest` that does not extend a level-`k` phrase and every sufficient fuel, the
 level-`k` parser reads the printed tokens of `e` back as exactly `e` and stops at `rest`. -/
-theorem roundtrip_core : (e : Expr) → WF e → ∀ k, level e ≤ k → k ≤ 3 → ∀ f rest, 4 * e.size + k ≤ f → Stop k rest →
+theorem roundtrip_core : (e : Expr) → WF e → ∀ k, level e ≤ k → k ≤ 3 → ∀ f rest, 4 * e.size + k ≤ f → StopE k e rest →
     After e rest → parseAt k f (printE e ++ rest) = some (e, rest)
   | .str l, hw => by
-    refine climb _ 0 ?_ (fun _ rest => valueStart_of_level0 _ hw rfl rest)
+    refine climb _ 0 ?_ (fun _ rest => valueStart_of_level0 _ hw rfl rest) (fun _ => by simp [endsValue])
     intro f rest hf _ _
     obtain ⟨f', rfl⟩ : ∃ f', f = f' + 1 := ⟨f - 1, by simp [Expr.size] at hf; omega⟩
     rcases litTokens_cases l with ⟨cs, hcs, h⟩ | h
     · simp [parseAt, printE, h, parseValue_xstr, xLit_ofList hcs]
     · simp [parseAt, printE, h, parseValue_str]
   | .backtick s, _ => by
-    refine climb _ 0 ?_ (fun _ rest => by simp [ValueStart, printE])
+    refine climb _ 0 ?_ (fun _ rest => by simp [ValueStart, printE]) (fun _ => by simp [endsValue])
     intro f rest hf _ _
     obtain ⟨f', rfl⟩ : ∃ f', f = f' + 1 := ⟨f - 1, by simp [Expr.size] at hf; omega⟩
     simp [parseAt, printE, parseValue_bt]
   | .var n, hw => by
-    refine climb _ 0 ?_ (fun _ rest => valueStart_of_level0 _ hw rfl rest)
+    refine climb _ 0 ?_ (fun _ rest => valueStart_of_level0 _ hw rfl rest) (fun _ => by simp [endsValue])
     intro f rest hf _ hafter
     obtain ⟨f', rfl⟩ : ∃ f', f = f' + 1 := ⟨f - 1, by simp [Expr.size] at hf; omega⟩
     simp only [WF, okName] at hw
     simp only [parseAt, printE, List.singleton_append]
     exact parseValue_var _ _ _ hw.2 (hafter n rfl).1 (hafter n rfl).2
   | .call fn args, hw => by
-    refine climb _ 0 ?_ (fun _ rest => valueStart_of_level0 _ hw rfl rest)
+    refine climb _ 0 ?_ (fun _ rest => valueStart_of_level0 _ hw rfl rest) (fun _ => by simp [endsValue])
     intro f rest hf _ _
     simp only [Expr.size] at hf
     obtain ⟨f', rfl⟩ : ∃ f', f = f' + 1 := ⟨f - 1, by omega⟩
@@ -42,7 +42,7 @@ theorem roundtrip_core : (e : Expr) → WF e → ∀ k, level e ≤ k → k ≤ 
     simp only [parseAt, printE, List.append_assoc, List.cons_append, List.nil_append, List.singleton_append] at hargs ⊢
     exact parseValue_call_ok hw.1.2 hargs
   | .assert a o b m, hw => by
-    refine climb _ 0 ?_ (fun _ rest => by simp [ValueStart, printE])
+    refine climb _ 0 ?_ (fun _ rest => by simp [ValueStart, printE]) (fun _ => by simp [endsValue])
     intro f rest hf _ _
     simp only [Expr.size] at hf
     have := size_pos a; have := size_pos b; have := size_pos m
@@ -52,88 +52,88 @@ theorem roundtrip_core : (e : Expr) → WF e → ∀ k, level e ≤ k → k ≤ 
     have hb := roundtrip_core b hw.2.1 3 (level_le3 b) (Nat.le_refl _)
     have hm := roundtrip_core m hw.2.2 3 (level_le3 m) (Nat.le_refl _)
     have hc := condition_rt a b o (fun f rest h1 h2 h3 => ha f rest h1 h2 h3) (fun f rest h1 h2 h3 => hb f rest h1 h2 h3) f'
-      (.comma :: (printE m ++ .rparen :: rest)) (by omega) (by omega) (stop_cons 3 _ _ (by simp [blocks])) (after_cons _ _ _ (by simp) (by simp))
-    have hm' := hm f' (.rparen :: rest) (by omega) (stop_cons 3 _ _ (by simp [blocks])) (after_cons _ _ _ (by simp) (by simp))
+      (.comma :: (printE m ++ .rparen :: rest)) (by omega) (by omega) (stopE_cons 3 _ _ _ (by simp [blocksE])) (after_cons _ _ _ (by simp) (by simp))
+    have hm' := hm f' (.rparen :: rest) (by omega) (stopE_cons 3 _ _ _ (by simp [blocksE])) (after_cons _ _ _ (by simp) (by simp))
     simp only [parseAt] at hm'
     simp only [parseAt, printE, List.append_assoc, List.cons_append, List.nil_append, List.singleton_append]
     exact parseValue_assert_ok hc hm'
   | .group e, hw => by
-    refine climb _ 0 ?_ (fun _ rest => by simp [ValueStart, printE])
+    refine climb _ 0 ?_ (fun _ rest => by simp [ValueStart, printE]) (fun _ => by simp [endsValue])
     intro f rest hf _ _
     simp only [Expr.size] at hf
     obtain ⟨f', rfl⟩ : ∃ f', f = f' + 1 := ⟨f - 1, by omega⟩
     simp only [WF] at hw
     have he := roundtrip_core e hw 3 (level_le3 e) (Nat.le_refl _) f' (.rparen :: rest) (by omega)
-      (stop_cons 3 _ _ (by simp [blocks])) (after_cons _ _ _ (by simp) (by simp))
+      (stopE_cons 3 _ _ _ (by simp [blocksE])) (after_cons _ _ _ (by simp) (by simp))
     simp only [parseAt] at he
     simp only [parseAt, printE, List.append_assoc, List.cons_append, List.nil_append, List.singleton_append]
     exact parseValue_group_ok he
   | .concat l r, hw => by
-    refine climb _ 1 ?_ (fun h => by omega)
+    refine climb _ 1 ?_ (fun h => by omega) (fun h => by omega)
     intro f rest hf hstop hafter
     simp only [Expr.size] at hf
     obtain ⟨f', rfl⟩ : ∃ f', f = f' + 1 := ⟨f - 1, by omega⟩
     simp only [WF] at hw
     obtain ⟨hl0, hr1, hwl, hwr⟩ := hw
     have hl := roundtrip_core l hwl 0 (by omega) (by omega) f' (.plus :: (printE r ++ rest)) (by omega)
-      (stop_cons 0 _ _ (by simp [blocks])) (after_cons _ _ _ (by simp) (by simp))
-    have hr := roundtrip_core r hwr 1 hr1 (by omega) f' rest (by omega) hstop hafter
+      (stopE_cons 0 _ _ _ (by simp [blocksE])) (after_cons _ _ _ (by simp) (by simp))
+    have hr := roundtrip_core r hwr 1 hr1 (by omega) f' rest (by omega) (hstop.congr (by simp [endsValue])) hafter
     simp only [parseAt] at hl hr
     have hs := valueStart_of_level0 l hwl hl0 (.plus :: (printE r ++ rest))
     simp only [parseAt, printE, List.append_assoc, List.cons_append, List.nil_append, List.singleton_append]
     exact parseConjunct_plus_ok hs hl hr
   | .joinL l r, hw => by
-    refine climb _ 1 ?_ (fun h => by omega)
+    refine climb _ 1 ?_ (fun h => by omega) (fun h => by omega)
     intro f rest hf hstop hafter
     simp only [Expr.size] at hf
     obtain ⟨f', rfl⟩ : ∃ f', f = f' + 1 := ⟨f - 1, by omega⟩
     simp only [WF] at hw
     obtain ⟨hl0, hr1, hwl, hwr⟩ := hw
     have hl := roundtrip_core l hwl 0 (by omega) (by omega) f' (.slash :: (printE r ++ rest)) (by omega)
-      (stop_cons 0 _ _ (by simp [blocks])) (after_cons _ _ _ (by simp) (by simp))
-    have hr := roundtrip_core r hwr 1 hr1 (by omega) f' rest (by omega) hstop hafter
+      (stopE_cons 0 _ _ _ (by simp [blocksE])) (after_cons _ _ _ (by simp) (by simp))
+    have hr := roundtrip_core r hwr 1 hr1 (by omega) f' rest (by omega) (hstop.congr (by simp [endsValue])) hafter
     simp only [parseAt] at hl hr
     have hs := valueStart_of_level0 l hwl hl0 (.slash :: (printE r ++ rest))
     simp only [parseAt, printE, List.append_assoc, List.cons_append, List.nil_append, List.singleton_append]
     exact parseConjunct_join_ok hs hl hr
   | .joinR r, hw => by
-    refine climb _ 1 ?_ (fun h => by omega)
+    refine climb _ 1 ?_ (fun h => by omega) (fun h => by omega)
     intro f rest hf hstop hafter
     simp only [Expr.size] at hf
     obtain ⟨f', rfl⟩ : ∃ f', f = f' + 1 := ⟨f - 1, by omega⟩
     simp only [WF] at hw
-    have hr := roundtrip_core r hw.2 1 hw.1 (by omega) f' rest (by omega) hstop hafter
+    have hr := roundtrip_core r hw.2 1 hw.1 (by omega) f' rest (by omega) (hstop.congr (by simp [endsValue])) hafter
     simp only [parseAt] at hr
     simp only [parseAt, printE, List.append_assoc, List.cons_append, List.nil_append, List.singleton_append]
     exact parseConjunct_slash_ok hr
   | .and l r, hw => by
-    refine climb _ 2 ?_ (fun h => by omega)
+    refine climb _ 2 ?_ (fun h => by omega) (fun h => by omega)
     intro f rest hf hstop hafter
     simp only [Expr.size] at hf
     obtain ⟨f', rfl⟩ : ∃ f', f = f' + 1 := ⟨f - 1, by omega⟩
     simp only [WF] at hw
     obtain ⟨hl1, hr2, hwl, hwr⟩ := hw
     have hl := roundtrip_core l hwl 1 hl1 (by omega) f' (.andand :: (printE r ++ rest)) (by omega)
-      (stop_cons 1 _ _ (by simp [blocks])) (after_cons _ _ _ (by simp) (by simp))
-    have hr := roundtrip_core r hwr 2 hr2 (by omega) f' rest (by omega) hstop hafter
+      (stopE_cons 1 _ _ _ (by simp [blocksE])) (after_cons _ _ _ (by simp) (by simp))
+    have hr := roundtrip_core r hwr 2 hr2 (by omega) f' rest (by omega) (hstop.congr (by simp [endsValue])) hafter
     simp only [parseAt] at hl hr
     simp only [parseAt, printE, List.append_assoc, List.cons_append, List.nil_append, List.singleton_append]
     exact parseDisjunct_and_ok hl hr
   | .or l r, hw => by
-    refine climb _ 3 ?_ (fun h => by omega)
+    refine climb _ 3 ?_ (fun h => by omega) (fun h => by omega)
     intro f rest hf hstop hafter
     simp only [Expr.size] at hf
     obtain ⟨f', rfl⟩ : ∃ f', f = f' + 1 := ⟨f - 1, by omega⟩
     simp only [WF] at hw
     obtain ⟨hl2, hwl, hwr⟩ := hw
     have hl := roundtrip_core l hwl 2 hl2 (by omega) f' (.barbar :: (printE r ++ rest)) (by omega)
-      (stop_cons 2 _ _ (by simp [blocks])) (after_cons _ _ _ (by simp) (by simp))
-    have hr := roundtrip_core r hwr 3 (level_le3 r) (by omega) f' rest (by omega) hstop hafter
+      (stopE_cons 2 _ _ _ (by simp [blocksE])) (after_cons _ _ _ (by simp) (by simp))
+    have hr := roundtrip_core r hwr 3 (level_le3 r) (by omega) f' rest (by omega) (hstop.congr (by simp [endsValue])) hafter
     simp only [parseAt] at hl hr
     simp only [parseAt, printE, List.append_assoc, List.cons_append, List.nil_append, List.singleton_append]
     exact parseExpression_or_ok hl hr
   | .cond a o b t x, hw => by
-    refine climb _ 1 ?_ (fun h => by omega)
+    refine climb _ 1 ?_ (fun h => by omega) (fun h => by omega)
     intro f rest hf hstop hafter
     simp only [Expr.size] at hf
     have := size_pos a; have := size_pos b; have := size_pos t; have := size_pos x
@@ -144,9 +144,9 @@ theorem roundtrip_core : (e : Expr) → WF e → ∀ k, level e ≤ k → k ≤ 
     have hb := roundtrip_core b hwb 3 (level_le3 b) (Nat.le_refl _)
     have hc := condition_rt a b o (fun f rest h1 h2 h3 => ha f rest h1 h2 h3) (fun f rest h1 h2 h3 => hb f rest h1 h2 h3) g
       (.lbrace :: (printE t ++ .rbrace :: .ident "else" :: (printElse x ++ rest))) (by omega) (by omega)
-      (stop_cons 3 _ _ (by simp [blocks])) (after_cons _ _ _ (by simp) (by simp))
+      (stopE_cons 3 _ _ _ (by simp [blocksE])) (after_cons _ _ _ (by simp) (by simp))
     have ht := roundtrip_core t hwt 3 (level_le3 t) (Nat.le_refl _) g
-      (.rbrace :: .ident "else" :: (printElse x ++ rest)) (by omega) (stop_cons 3 _ _ (by simp [blocks])) (after_cons _ _ _ (by simp) (by simp))
+      (.rbrace :: .ident "else" :: (printElse x ++ rest)) (by omega) (stopE_cons 3 _ _ _ (by simp [blocksE])) (after_cons _ _ _ (by simp) (by simp))
     simp only [parseAt] at ht
     simp only [parseAt, printE, List.append_assoc, List.cons_append, List.nil_append, List.singleton_append]
     rw [show g + 2 = (g + 1) + 1 from rfl, parseConjunct_if]
@@ -154,14 +154,14 @@ theorem roundtrip_core : (e : Expr) → WF e → ∀ k, level e ≤ k → k ≤ 
     by_cases hx : ∃ a' o' b' t' x', x = .cond a' o' b' t' x'
     · obtain ⟨a', o', b', t', x', rfl⟩ := hx
       -- `else if …`: the nested conditional is read by parse_conditional
-      have hx1 := roundtrip_core (.cond a' o' b' t' x') hwx 1 (by simp [level]) (by omega) (g + 1) rest (by omega) (hstop.le (by omega)) hafter
+      have hx1 := roundtrip_core (.cond a' o' b' t' x') hwx 1 (by simp [level]) (by omega) (g + 1) rest (by omega) (fun t _ => by simp [blocksE, endsValue]) hafter
       simp only [parseAt, printE, List.append_assoc, List.cons_append, List.nil_append, List.singleton_append] at hx1
       rw [parseConjunct_if] at hx1
       simp only [printElse, List.append_assoc, List.cons_append, List.nil_append, List.singleton_append] at hc ht ⊢
       exact parseConditional_elseif_ok hc ht hx1
     · have hnc : ∀ a' o' b' t' x', x ≠ .cond a' o' b' t' x' := fun a' o' b' t' x' h => hx ⟨a', o', b', t', x', h⟩
       have hx3 := roundtrip_core x hwx 3 (level_le3 x) (Nat.le_refl _) g (.rbrace :: rest) (by omega)
-        (stop_cons 3 _ _ (by simp [blocks])) (after_cons _ _ _ (by simp) (by simp))
+        (stopE_cons 3 _ _ _ (by simp [blocksE])) (after_cons _ _ _ (by simp) (by simp))
       simp only [parseAt] at hx3
       rw [printElse_noncond x hnc] at hc ht ⊢
       simp only [List.append_assoc, List.cons_append, List.nil_append, List.singleton_append] at hc ht ⊢
@@ -179,7 +179,7 @@ theorem roundtripArgs_core : (es : Exprs) → WFs es → ∀ f rest, 4 * es.size
     obtain ⟨f', rfl⟩ : ∃ f', f = f' + 1 := ⟨f - 1, by omega⟩
     simp only [WFs] at hw
     have he := roundtrip_core e hw.1 3 (level_le3 e) (Nat.le_refl _) f' (.rparen :: rest) (by omega)
-      (stop_cons 3 _ _ (by simp [blocks])) (after_cons _ _ _ (by simp) (by simp))
+      (stopE_cons 3 _ _ _ (by simp [blocksE])) (after_cons _ _ _ (by simp) (by simp))
     simp only [parseAt] at he
     have hne := head_ne_rparen e (.rparen :: rest)
     simp only [printArgs, List.append_assoc, List.cons_append, List.nil_append, List.singleton_append]
@@ -190,7 +190,7 @@ theorem roundtripArgs_core : (es : Exprs) → WFs es → ∀ f rest, 4 * es.size
     obtain ⟨f', rfl⟩ : ∃ f', f = f' + 1 := ⟨f - 1, by omega⟩
     simp only [WFs] at hw
     have he := roundtrip_core e hw.1 3 (level_le3 e) (Nat.le_refl _) f'
-      (.comma :: (printArgs (.cons e' es) ++ [.rparen] ++ rest)) (by omega) (stop_cons 3 _ _ (by simp [blocks])) (after_cons _ _ _ (by simp) (by simp))
+      (.comma :: (printArgs (.cons e' es) ++ [.rparen] ++ rest)) (by omega) (stopE_cons 3 _ _ _ (by simp [blocksE])) (after_cons _ _ _ (by simp) (by simp))
     simp only [parseAt] at he
     have hrec := roundtripArgs_core (.cons e' es) (by simp only [WFs]; exact hw.2) f' rest (by simp only [Exprs.size]; omega)
     have hne := head_ne_rparen e (.comma :: (printArgs (.cons e' es) ++ [.rparen] ++ rest))
